@@ -206,11 +206,18 @@ where
         &mut self,
         author: MemberId,
         key_bundle: &LongTermKeyBundle,
-    ) -> Result<Event<C>, IdentityError<F, C>> {
+    ) -> Result<Option<Event<C>>, IdentityError<F, C>> {
         key_bundle.verify()?;
+
+        // If we already know this key bundle then there is nothing to do or to announce.
+        let key_registry_y = self.key_registry().await?;
+        if KeyRegistry::has_longterm_bundle(&key_registry_y, &author, key_bundle) {
+            return Ok(None);
+        }
+
         let member = Member::new(author, key_bundle.clone());
         self.register_member(&member).await?;
-        Ok(Event::KeyBundle { author })
+        Ok(Some(Event::KeyBundle { author }))
     }
 
     pub async fn forge(&mut self, args: SpacesArgs<C>) -> Result<F::Message, IdentityError<F, C>> {
